@@ -1,6 +1,7 @@
 """C06 (address recognition in text) and C11 (AS numbers): regular-language decisions
 on the folded patterns plus the substitution plumbing."""
 import ast
+import re
 
 from . import rx, specs
 from .rx import CharSet, RxError
@@ -44,6 +45,9 @@ def _ipv4(ctx, rep, cl):
     r4 = _pattern(ctx, IPMOD, "IPv4_PATTERN")
     loc = "netconan/ip_anonymization.py (IPv4_PATTERN)"
     try:
+        # the pattern has no letters: it needs no flag, and IGNORECASE is not neutral here — under it the letter ranges of the enclosing-character
+        # classes also cover the characters that case-fold into them (U+0131, U+017F, U+212A), so an address next to one of those is not a token
+        rep.ob(cl + ".ipv4-flags", "IPv4_PATTERN", int(r4.flags or 0) & ~int(re.UNICODE) == 0, "IPv4_PATTERN is compiled with flags %r; expected none" % (r4.flags,), loc, key=cl + ".ipv4-flags|IPv4_PATTERN")
         tree, info = rx.parse(r4.pattern, r4.flags)
     except RxError as e:
         rep.fail(cl + ".ipv4-parse", "IPv4_PATTERN", "pattern not analysable: %s" % e, loc)
@@ -137,6 +141,7 @@ def _ipv6(ctx, rep, cl, thorough=False, parse_only=False):
     r6 = _pattern(ctx, IPMOD, "IPv6_PATTERN")
     loc = "netconan/ip_anonymization.py (IPv6_PATTERN)"
     try:
+        rep.ob(cl + ".ipv6-flags", "IPv6_PATTERN", int(r6.flags or 0) & ~int(re.UNICODE) == int(re.IGNORECASE), "IPv6_PATTERN is compiled with flags %r; expected exactly IGNORECASE (hex digits in either case, nothing else changed)" % (r6.flags,), loc, key=cl + ".ipv6-flags|IPv6_PATTERN")
         tree, info = rx.parse(r6.pattern, r6.flags)
     except RxError as e:
         rep.fail(cl + ".ipv6-parse", "IPv6_PATTERN", "pattern not analysable: %s" % e, loc)
